@@ -149,6 +149,9 @@ func EnvInt(name string, def int) int {
 	return def
 }
 
+// OnExit functions run after the tests and before the process exits (cleanup of scratch files).
+var OnExit []func()
+
 // Main is called from TestMain of every property package.
 func Main(m *testing.M, id string) {
 	propID = id
@@ -164,6 +167,9 @@ func Main(m *testing.M, id string) {
 	code := m.Run()
 	SurveyReport()
 	Flush()
+	for _, f := range OnExit {
+		f()
+	}
 	os.Exit(code)
 }
 
